@@ -137,6 +137,51 @@ fn call(g: &Arc<G>, t: &mut Toks, o: &mut Out) {
                 }
             }
         }
+        "cutsweep" => {
+            // C08's cutoff clause on the implementation's OWN distances (no recomputation, so inexact weights are
+            // fine): for every distance d the unrestricted search reports, the search with cutoff = d must return
+            // exactly the entries with distance <= d, with the same distances (bit for bit)
+            let s0 = sources[0];
+            let g2 = g.clone();
+            let base = watched(o, move || dijkstra::single_source(&*g2, weighted, s0, None, None, false, true));
+            let mut checks = 0i64;
+            let mut bad: Vec<Vec<i64>> = vec![];
+            if let Some(Ok(m0)) = base {
+                let mut ds: Vec<f64> = m0.values().map(|i| i.distance).collect();
+                ds.sort_by(|a, b| a.partial_cmp(b).unwrap());
+                ds.dedup();
+                for d in ds {
+                    for (fo2, wp2) in [(false, true), (false, false), (true, true)] {
+                        let g3 = g.clone();
+                        let r = watched(o, move || dijkstra::single_source(&*g3, weighted, s0, None, Some(d), fo2, wp2));
+                        checks += 1;
+                        let ok = match r {
+                            Some(Ok(m)) => {
+                                let want: Vec<(i64, u64)> = {
+                                    let mut v: Vec<(i64, u64)> =
+                                        m0.iter().filter(|(_, i)| i.distance <= d).map(|(k, i)| (*k, i.distance.to_bits())).collect();
+                                    v.sort();
+                                    v
+                                };
+                                let mut got: Vec<(i64, u64)> = m.iter().map(|(k, i)| (*k, i.distance.to_bits())).collect();
+                                got.sort();
+                                got == want
+                            }
+                            _ => false,
+                        };
+                        if !ok && bad.len() < 3 {
+                            bad.push(vec![s0, d.to_bits() as i64, fo2 as i64, wp2 as i64]);
+                        }
+                    }
+                }
+                o.obs(5080, &[vec![checks, bad.len() as i64]], &[]);
+                if !bad.is_empty() {
+                    o.obs(5081, &bad, &[]);
+                }
+            } else {
+                o.obs(5080, &[vec![-1, 0]], &[]);
+            }
+        }
         "involving" => {
             let x = sources[0];
             if let Some(l) = watched(o, move || dijkstra::get_all_shortest_paths_involving(&*g, x, weighted)) {
